@@ -85,14 +85,14 @@ class VirtualMachine:
         # on, to avoid the performance penalty in the (normal) case where throttling is
         # off.
         if self.settings.throttle is False:
-            while not self.halted and self.pc < len(program.code):
+            while not self.halted and 0 <= self.pc < len(program.code):
                 op = program.code[self.pc]
                 self.location = op.loc
                 op.execute(self)
         else:
             while (
                 not self.halted
-                and self.pc < len(program.code)
+                and 0 <= self.pc < len(program.code)
                 and self.op_count < self.settings.throttle
             ):
                 op = program.code[self.pc]
